@@ -12,7 +12,10 @@ PROPERTY = "C17"
 RULE = (
     "scripts = sequences of outcomes of the wrapped client function over the fault classes (success, ConnectionTimeout, ConnectionError/TlsError, "
     "AuthenticationException, AuthorizationException, BulkIndexError with per-item statuses, ApiError by status, other TransportError, other "
-    "exception) realised with real elasticsearch / elastic_transport classes, x random.random() draws (k/2^53, boundary values included); "
+    "exception); each class is realised by many concrete real elasticsearch / elastic_transport exception objects (13 response-body shapes: None, {}, "
+    "{'error': {...}}, {'error': 'string'}, plain text, HTML, bytes, list, ...; metas with/without headers; string / non-string / empty messages; "
+    "error tuples of several shapes; bulk items with rich / type-only / empty / reason-only / absent error documents) - the classification may depend "
+    "on class + status only; x random.random() draws (k/2^53, boundary values included); "
     "non-trivial when at least one outcome is consumed; signature = (model step tags, result kind, number of calls)"
 )
 TRUSTED = [
@@ -22,6 +25,7 @@ TRUSTED = [
 ]
 ASSUMPTIONS = [
     "bulk requests of the metrics store only contain index actions (per-item errors are keyed 'index')",
+    "the per-item 'error' of a bulk response is absent or a JSON object (Elasticsearch >= 2), never a bare string",
     "API errors are elasticsearch.ApiError instances (status_code available), as raised by elasticsearch-py 8",
 ]
 
@@ -33,42 +37,107 @@ class ScriptExhausted(BaseException):
     pass
 
 
-def _meta(status):
+NV = 78  # variant space: body shape (13) x headers (2) x class choice (3) all reachable
+
+
+def _meta(status, variant=0):
     import elastic_transport
 
+    headers = [
+        elastic_transport.HttpHeaders(),
+        elastic_transport.HttpHeaders({"content-type": "text/html; charset=UTF-8", "retry-after": "1", "x-elastic-product": "Elasticsearch"}),
+    ][variant % 2]
     return elastic_transport.ApiResponseMeta(
-        status=status, http_version="1.1", headers=elastic_transport.HttpHeaders(), duration=0.0,
+        status=status, http_version=["1.1", "2"][(variant // 2) % 2], headers=headers, duration=[0.0, 0.25][variant % 2],
         node=elastic_transport.NodeConfig(scheme="https", host=HOST, port=PORT),
     )
+
+
+def api_body(variant, status, marker):
+    """the response body of an API error as elasticsearch-py hands it over: a parsed JSON document of any shape,
+    or the raw text / bytes when the answer (often from a gateway or proxy) is not JSON"""
+    shapes = [
+        None,
+        {},
+        {"error": {"type": marker, "reason": f"reason for {marker}", "root_cause": [{"type": marker, "reason": f"reason for {marker}"}]}, "status": status},
+        {"error": f"string {marker}", "status": status},
+        f"upstream connect error or disconnect/reset before headers ({marker})",
+        f"<html><head><title>{status}</title></head><body><center><h1>{status} Bad Gateway</h1></center><hr>{marker}</body></html>",
+        f"bytes {marker}".encode(),
+        ["list", marker],
+        {"error": {"type": marker}},
+        {"message": f"Too Many Requests {marker}", "statusCode": status},
+        {"error": None},
+        {"error": [marker]},
+        "",
+    ]
+    return shapes[variant % len(shapes)]
 
 
 def api_error(status, variant, idx):
     import elasticsearch
 
+    marker = f"err_{status}_{idx}"
     by_status = {400: elasticsearch.BadRequestError, 404: elasticsearch.NotFoundError, 409: elasticsearch.ConflictError}
-    cls = by_status.get(status, elasticsearch.ApiError) if variant % 2 == 0 else elasticsearch.ApiError
-    if variant % 3 == 2:
-        cls = elasticsearch.exceptions.UnsupportedProductError if status not in by_status else cls
-    return cls(f"err_{status}_{idx}", _meta(status), {"error": {"type": f"err_{status}_{idx}", "root_cause": [{"reason": "because"}]}})
+    c = variant % 3
+    if c == 0:
+        cls = by_status.get(status, elasticsearch.ApiError)
+    elif c == 1:
+        cls = elasticsearch.ApiError
+    else:
+        cls = elasticsearch.exceptions.UnsupportedProductError if status not in by_status else elasticsearch.exceptions.ApiError
+    return cls(marker, _meta(status, variant), api_body(variant, status, marker))
 
 
 def bulk_items(items):
-    """items: [[status or None, shape]]; shape 'index' | 'nostatus' | 'create'"""
+    """items: [[status or None, shape]]; shape 'index[:decoration]' | 'nostatus' | 'create'.
+    The decoration only changes the per-item error document (never the status the code looks at)."""
     out = []
     for j, (status, shape) in enumerate(items):
-        info = {"_index": "rally-metrics", "_id": str(j), "error": {"type": f"type_{j}", "reason": "r"}}
+        deco = shape.split(":")[1] if ":" in shape else "rich"
+        info = {"_index": "rally-metrics", "_id": str(j)}
+        if deco == "rich":
+            info["error"] = {"type": f"type_{j}", "reason": "r", "caused_by": {"type": "inner", "reason": "deep"}, "index_uuid": "u", "shard": "0"}
+        elif deco == "typeonly":
+            info["error"] = {"type": f"type_{j}"}
+        elif deco == "emptyerror":
+            info["error"] = {}
+        elif deco == "reasononly":
+            info["error"] = {"reason": f"only a reason {j}"}
+        elif deco == "noerror":
+            pass
+        else:
+            raise HarnessError("unknown item decoration " + shape)
         if shape != "nostatus":
             info["status"] = status
         out.append({("create" if shape == "create" else "index"): info})
     return out
 
 
+ITEM_DECOS = ["index", "index", "index:typeonly", "index:emptyerror", "index:reasononly", "index:noerror"]
+
+
+def item_has_type(shape):
+    return shape in ("index", "index:typeonly", "nostatus")
+
+
 def model_statuses(items):
-    return [(status if shape == "index" else None) for status, shape in items]
+    return [(status if shape.startswith("index") else None) for status, shape in items]
+
+
+class _Opaque:
+    """a message object that is not a string"""
+
+    def __init__(self, text):
+        self.text = text
+
+    def __str__(self):
+        return self.text
 
 
 def make_exception(o, idx):
-    """case outcome -> real exception object (None for success)"""
+    """case outcome -> real exception object (None for success).  Only the class (+ status) is what the
+    classification may depend on; messages, bodies, metas and error tuples come in many shapes."""
     import elasticsearch
     import elasticsearch.helpers
     import elastic_transport
@@ -76,27 +145,36 @@ def make_exception(o, idx):
 
     k = o[0]
     v = o[-1] if len(o) > 1 and isinstance(o[-1], int) else 0
+    err_tuples = [(), (TimeoutError("inner timeout"),), (OSError(111, "refused"), ValueError("second")), (elastic_transport.ConnectionError("nested", errors=(OSError("deep"),)),)]
+    errs = err_tuples[(v // 3) % len(err_tuples)]
     if k == "connTimeout":
-        return [elasticsearch.exceptions.ConnectionTimeout("timed out"), elastic_transport.ConnectionTimeout("t", errors=(TimeoutError(),)),
-                elasticsearch.ConnectionTimeout(f"timeout_{idx}")][v % 3]
+        cls = [elasticsearch.exceptions.ConnectionTimeout, elastic_transport.ConnectionTimeout, elasticsearch.ConnectionTimeout][v % 3]
+        msg = [f"timeout_{idx}", "", _Opaque(f"timeout_{idx}"), TimeoutError(f"timeout_{idx}"), f"Connection timed out {idx}\nsecond line"][(v // 2) % 5]
+        return cls(msg, errors=errs)
     if k == "connError":
-        return [elasticsearch.exceptions.ConnectionError("refused"), elastic_transport.TlsError("tls handshake"),
-                elasticsearch.exceptions.SSLError("ssl"), elastic_transport.ConnectionError(f"conn_{idx}", errors=(OSError("e"),))][v % 4]
+        cls = [elasticsearch.exceptions.ConnectionError, elastic_transport.TlsError, elasticsearch.exceptions.SSLError, elastic_transport.ConnectionError][v % 4]
+        msg = [f"conn_{idx}", "", _Opaque(f"conn_{idx}"), OSError(f"conn_{idx}"), None][(v // 2) % 5]
+        return cls(msg, errors=errs)
     if k == "authn":
-        return elasticsearch.exceptions.AuthenticationException(f"security_exception_{idx}", _meta(401), {"error": "unauthorized"})
+        marker = f"security_exception_{idx}"
+        return elasticsearch.exceptions.AuthenticationException(marker, _meta(401, v), api_body(v, 401, marker))
     if k == "authz":
-        return elasticsearch.exceptions.AuthorizationException(f"forbidden_{idx}", _meta(403), {"error": "forbidden"})
+        marker = f"forbidden_{idx}"
+        return elasticsearch.exceptions.AuthorizationException(marker, _meta(403, v), api_body(v, 403, marker))
     if k == "bulk":
-        errs = bulk_items(o[1])
-        return elasticsearch.helpers.BulkIndexError(f"{len(errs)} document(s) failed to index.", errs)
+        items = bulk_items(o[1])
+        msg = [f"{len(items)} document(s) failed to index.", "", f"{len(items)} document(s) failed to index.\n{items}"][idx % 3]
+        return elasticsearch.helpers.BulkIndexError(msg, items)
     if k == "api":
         return api_error(o[1], v, idx)
     if k == "transportOther":
-        return [elastic_transport.SerializationError(f"cannot serialize {idx}"), elastic_transport.SniffingError(f"sniff {idx}"),
-                elastic_transport.TransportError(f"generic {idx}"), elastic_transport.TransportError(f"multi {idx}", errors=(ValueError("inner"),))][v % 4]
+        cls = [elastic_transport.SerializationError, elastic_transport.SniffingError, elastic_transport.TransportError,
+               elasticsearch.exceptions.SerializationError, elasticsearch.exceptions.TransportError][v % 5]
+        msg = [f"transport_{idx}", _Opaque(f"transport_{idx}"), ValueError(f"transport_{idx}"), f"transport_{idx} %s %d {{}}"][(v // 2) % 4]
+        return cls(msg, errors=errs)
     if k == "otherExc":
         return [KeyError(f"k{idx}"), ValueError("v"), exceptions.RallyError("inner rally error"), ConnectionRefusedError("builtin"), TimeoutError("builtin timeout"),
-                elasticsearch.helpers.ScanError("scroll", "x")][v % 6]
+                elasticsearch.helpers.ScanError("scroll", "x"), AttributeError("'str' object has no attribute 'get'"), TypeError("t")][v % 8]
     raise HarnessError("unknown outcome " + str(o))
 
 
@@ -262,7 +340,7 @@ def observe(fn, outs, rnds, produce=None):
                         m = re.match(r".*\[type_(\d+)\]$", msg)
                         res.append(int(m.group(1)) if m else None)
                     if name == "apiError":
-                        m = re.match(r"An error \[err_(\d+)_\d+\]", msg)
+                        m = re.search(r"err_(\d+)_\d+", msg)
                         res.append(int(m.group(1)) if m else None)
                     break
         else:
@@ -319,15 +397,15 @@ def names_cause(o, obs, opname):
     if k == "api":
         return where and f"[{opname}]" in msg and f"err_{o[1]}_" in msg
     if k == "transportOther":
-        return where and f"[{opname}]" in msg and re.search(r"(cannot serialize|sniff|generic|inner|multi) ?\d*", msg) is not None
+        return where and f"[{opname}]" in msg and re.search(r"transport_\d+|inner timeout|refused|nested", msg) is not None
     if k == "bulk":
         sts = model_statuses(o[1])
         bad = [j for j, s in enumerate(sts) if s not in RETRYABLE]
         if bad:
-            if o[1][bad[0]][1] == "create":
-                return True  # outside the assumption (index actions only): the type is looked up under 'index'
+            if not item_has_type(o[1][bad[0]][1]):
+                return True  # the item carries no error type under 'index' (or is not an index action): nothing to name
             return f"[type_{bad[0]}]" in msg
-        return "type_0" in msg or not sts
+        return "rally-metrics" in msg or not sts
     return True
 
 
@@ -336,6 +414,14 @@ def judge(ctx, outs, rnds, obs, opname, returns_result=True, expected_return=Non
     res = obs["res"]
     ok = True
     what = None
+    escaped = res[0] == "foreign" or (res[0] == "propagated" and outs[res[1]][0] != "otherExc")
+    if escaped:
+        # neither a result, nor a Rally error, nor an exception the wrapped function raised that guarded() does not handle
+        exc = obs["exc"]
+        ctx.fail("non-rally-exception-escapes", "an exception that is not a Rally error escapes guarded() (fault handling itself failed)",
+                 {"kind": kind, "at": i, "trace": trace},
+                 {"exception": type(exc).__name__, "text": str(exc)[:200], "trace": obs["trace"], "outcome": outs[obs["trace"].count("c") - 1] if 0 < obs["trace"].count("c") <= len(outs) else None})
+        return kind
     if obs["trace"] != trace:
         ok, what = False, "calls / pauses differ from 'retry transient faults with pauses 2^k + random, at most ten retries, stop at success'"
     elif kind == "returned":
@@ -398,37 +484,53 @@ def gen_rnds(rng, n):
 API_STATUSES = [429, 502, 503, 504, 400, 404, 409, 500, 501, 408, 401, 403, 505, 428, 430, 200, 599]
 
 
+def gen_items(rng, n, statuses):
+    return [[rng.choice(statuses), rng.choice(ITEM_DECOS)] for _ in range(n)]
+
+
 def gen_outcome(rng, transient_bias):
     r = rng.random()
     if r < transient_bias:
         c = rng.randrange(4)
         if c == 0:
-            return ["connTimeout", rng.randrange(3)]
+            return ["connTimeout", rng.randrange(NV)]
         if c == 1:
-            return ["connError", rng.randrange(4)]
+            return ["connError", rng.randrange(NV)]
         if c == 2:
-            return ["api", rng.choice(RETRYABLE), rng.randrange(6)]
-        return ["bulk", [[rng.choice(RETRYABLE), "index"] for _ in range(rng.randrange(0, 4))]]
+            return ["api", rng.choice(RETRYABLE), rng.randrange(NV)]
+        return ["bulk", gen_items(rng, rng.randrange(0, 4), RETRYABLE)]
     c = rng.randrange(9)
     if c == 0:
         return ["success"]
     if c == 1:
-        return ["authn"]
+        return ["authn", rng.randrange(NV)]
     if c == 2:
-        return ["authz"]
+        return ["authz", rng.randrange(NV)]
     if c == 3:
         n = rng.randrange(1, 5)
-        items = [[rng.choice(RETRYABLE), "index"] for _ in range(n)]
+        items = gen_items(rng, n, RETRYABLE)
         j = rng.randrange(n)
-        items[j] = rng.choice([[409, "index"], [400, "index"], [None, "nostatus"], [429, "create"], [500, "index"], [None, "index"], [200, "index"]])
+        items[j] = rng.choice([[409, rng.choice(ITEM_DECOS)], [400, "index"], [None, "nostatus"], [429, "create"], [500, rng.choice(ITEM_DECOS)], [None, "index"], [200, "index:noerror"]])
         return ["bulk", items]
     if c in (4, 5):
-        return ["api", rng.choice(API_STATUSES), rng.randrange(6)]
+        return ["api", rng.choice(API_STATUSES), rng.randrange(NV)]
     if c == 6:
-        return ["transportOther", rng.randrange(4)]
+        return ["transportOther", rng.randrange(NV)]
     if c == 7:
-        return ["otherExc", rng.randrange(6)]
+        return ["otherExc", rng.randrange(8)]
     return ["success"]
+
+
+def vary(o, n):
+    """the same outcome class realised by the n-th concrete exception object (enumerating streams rotate through all shapes)"""
+    o = list(o)
+    if o[0] in ("connTimeout", "connError", "transportOther", "otherExc", "authn", "authz"):
+        return [o[0], n % NV]
+    if o[0] == "api":
+        return ["api", o[1], n % NV]
+    if o[0] == "bulk":
+        return ["bulk", [[st, (ITEM_DECOS[(n + j) % len(ITEM_DECOS)] if sh.startswith("index") else sh)] for j, (st, sh) in enumerate(o[1])]]
+    return o
 
 
 def gen_random(ctx):
@@ -459,14 +561,14 @@ def gen_exhaustive(ctx):
             i += 1
             if i % ctx.nshards != ctx.shard:
                 continue
-            yield {"outs": [list(o) for o in seq], "rnd": [RND_POOL[(i + j) % len(RND_POOL)] for j in range(n + 1)]}
+            yield {"outs": [vary(o, i * 7 + j * 31) for j, o in enumerate(seq)], "rnd": [RND_POOL[(i + j) % len(RND_POOL)] for j in range(n + 1)]}
     for n in range(8, 13):
         for t0 in range(len(TRANSIENTS)):
             for x in CLASSES + [None]:
                 i += 1
                 if i % ctx.nshards != ctx.shard:
                     continue
-                outs = [list(TRANSIENTS[(t0 + j * (1 + t0)) % len(TRANSIENTS)]) for j in range(n)] + ([list(x)] if x else [])
+                outs = [vary(TRANSIENTS[(t0 + j * (1 + t0)) % len(TRANSIENTS)], i * 5 + j * 13) for j in range(n)] + ([vary(x, i)] if x else [])
                 yield {"outs": outs, "rnd": [RND_POOL[(i + j) % len(RND_POOL)] for j in range(n + 2)]}
     ctx.notes["scope"] = f"all outcome sequences of length <= {L} over {len(CLASSES)} classes + budget-boundary family (8..12 transient faults then each class)"
 
@@ -496,6 +598,12 @@ def run_guarded(ctx, case):
     if obs["draws"] != obs["trace"].count("c") + (1 if obs["res"] == ["pending"] else 0):
         ctx.count("random-draws-differ-from-iterations")
     kind = judge(ctx, outs, rnds, obs, "scripted_operation")
+    for o in outs[: obs["trace"].count("c")]:
+        if o[0] in ("api", "authn", "authz"):
+            ctx.count("api-body-shape:%02d" % (o[-1] % 13))
+        elif o[0] == "bulk":
+            for _st, sh in o[1]:
+                ctx.count("bulk-item:" + sh)
     ctx.count("len:%d" % len(outs))
     ctx.count("oracle:" + kind)
     ctx.sig([sorted(m.get("tags", [])), cres[0], obs["trace"].count("c")], nontrivial=obs["trace"].count("c") > 0)
@@ -546,11 +654,11 @@ def gen_methods(ctx):
             continue
         for seq in short:
             i += 1
-            yield {"method": name, "outs": [list(o) for o in seq], "rnd": [RND_POOL[(i + j) % len(RND_POOL)] for j in range(len(seq) + 1)]}
+            yield {"method": name, "outs": [vary(o, i * 7 + j * 31) for j, o in enumerate(seq)], "rnd": [RND_POOL[(i + j) % len(RND_POOL)] for j in range(len(seq) + 1)]}
         for n in (9, 10, 11):
             for x in CLASSES + [None]:
                 i += 1
-                outs = [list(TRANSIENTS[(i + j) % len(TRANSIENTS)]) for j in range(n)] + ([list(x)] if x else [])
+                outs = [vary(TRANSIENTS[(i + j) % len(TRANSIENTS)], i * 5 + j * 13) for j in range(n)] + ([vary(x, i)] if x else [])
                 yield {"method": name, "outs": outs, "rnd": gen_rnds(rng, n + 2)}
         for _ in range(max(0, ctx.budget // max(1, (len(methods) + ctx.nshards - 1) // ctx.nshards) - len(short) - 36)):
             n = rng.choice([1, 2, 3, 5, 10, 11, 12])
@@ -574,7 +682,7 @@ def run_method(ctx, case):
         # per-item errors come out of the real elasticsearch.helpers.bulk: the statuses are what Elasticsearch reports
         # under 'index' (non-2xx; at least one failing item, at most one per document)
         def san(items):
-            items = [[s if (s is not None and not 200 <= s < 300) else 500, "index"] for s, _ in items] or [[429, "index"]]
+            items = [[s if (s is not None and not 200 <= s < 300) else 500, sh if sh.startswith("index") else "index"] for s, sh in items] or [[429, "index"]]
             return items[:1] if "item" in sig.parameters else items
 
         outs = [o if o[0] != "bulk" else ["bulk", san(o[1])] for o in outs]
